@@ -97,7 +97,7 @@ var modeL1 = strings.HasPrefix(os.Getenv("SIM_MODE"), "L1")
 
 func quiesce() {
 	if modeL1 {
-		time.Sleep(30 * time.Millisecond)
+		sleepPast(30 * time.Millisecond)
 	}
 	synctest.Wait()
 }
@@ -360,7 +360,7 @@ func (w *World) tickFair(d time.Duration) {
 	for el < d {
 		s := min(slice, d-el)
 		dials := w.net.Snapshot().Dials
-		time.Sleep(s)
+		sleepPast(s)
 		el += s
 		w.simTime += s
 		synctest.Wait()
